@@ -362,7 +362,7 @@ func (x *Exec) evalLV(e ast.Expr, st *State, env *Env) *LVal {
 		sv := x.eval(e.X, st, env).(Slice)
 		iv := x.toInt(x.eval(e.Index, st, env))
 		x.obl(st, "idx", "index", e.Pos(), fmt.Sprintf("(and (<= 0 %s) (< %s %s))", iv, iv, sv.Len), x.nodeText(e))
-		return &LVal{Sl: &sv, Idx: iv, Typ: sl.Elem()}
+		return &LVal{Sl: &sv, Idx: iv, Typ: sl.Elem(), Abs: x.anchorIdx[e]}
 	}
 	x.abort("unsupported lvalue %T (%s)", e, x.nodeText(e))
 	return nil
@@ -414,6 +414,9 @@ func (x *Exec) load(st *State, lv *LVal) Value {
 	if lv.Sl == nil {
 		return x.loadPath(st, lv.Path, lv.Typ)
 	}
+	if lv.Abs != "" {
+		return x.loadElemAbs(st, lv.Sl, lv.Abs, lv.Sub, lv.Typ)
+	}
 	return x.loadElem(st, lv.Sl, lv.Idx, lv.Sub, lv.Typ)
 }
 
@@ -422,10 +425,22 @@ func (x *Exec) loadElem(st *State, sl *Slice, idx, sub string, t types.Type) Val
 	if sl.Off == "0" {
 		at = idx
 	}
+	return x.loadElemAt(st, sl, at, sub, t, false)
+}
+
+func (x *Exec) loadElemAbs(st *State, sl *Slice, abs, sub string, t types.Type) Value {
+	return x.loadElemAt(st, sl, abs, sub, t, true)
+}
+
+func (x *Exec) loadElemAt(st *State, sl *Slice, at, sub string, t types.Type, anchor bool) Value {
 	get := func(leafPath string, lf Leaf) string {
 		full := Leaf{Path: sub + leafPath, TI: lf.TI, Sort: lf.Sort}
 		h := x.heap(st, sl.Elem, full)
-		return app("select", app("select", h, sl.Arr), at)
+		r := app("select", app("select", h, sl.Arr), at)
+		if anchor && len(x.autoTrig) > 0 {
+			x.autoTrig[len(x.autoTrig)-1] = append(x.autoTrig[len(x.autoTrig)-1], "("+r+")")
+		}
+		return r
 	}
 	return x.buildValue(st, t, "", get)
 }
